@@ -23,7 +23,7 @@ static std::vector<int> run_job(const Job &j) {
   const uint64_t hb = vrt::fnv1a(e.bytes.data(), e.bytes.size());
   for (int x : limbs(hb)) res.push_back(x);
   res.push_back(e.ok ? 1 : 0);
-  res.push_back((int)(e.reported_points & 0xFFFFFF));
+  res.push_back(e.ok ? (int)(e.reported_points & 0xFFFFFF) : 0);     // what a failed encode leaves in the counters is not a result
   if (e.ok) {
     Decoded d = decode(e.bytes.data(), e.bytes.size());
     for (int x : limbs(d.ok ? geom_digest(*d.pc, d.is_mesh) : 7)) res.push_back(x);
@@ -46,7 +46,7 @@ static std::vector<Job> make_jobs(vrt::Rng &r, int n) {
         if (att->data_type() != DT_FLOAT32 || att->attribute_type() == GeometryAttribute::NORMAL) continue;
         j.o.expert = true;
         j.o.explicit_att = a;
-        j.o.explicit_dims = att->num_components();
+        j.o.explicit_dims = std::min<int>(att->num_components(), 16);
         j.o.explicit_origin = (float)(-1000.0 - 5000.0 * r.unit());
         j.o.explicit_range = (float)(20000.0 + 30000.0 * r.unit());
         if (j.o.qbits[a] == 0) j.o.qbits[a] = 12;
@@ -140,7 +140,12 @@ static int run_stress(int nthreads, int rounds, uint64_t seed) {
   for (int round = 0; round < rounds; ++round) {
     std::vector<std::vector<Job>> jobs(nthreads);
     std::vector<std::vector<int>> solo(nthreads), got(nthreads);
-    for (int t = 0; t < nthreads; ++t) { jobs[t] = make_jobs(r, 6); for (auto &j : jobs[t]) { auto x = run_job(j); solo[t].insert(solo[t].end(), x.begin(), x.end()); } }
+    // the first round of a process runs the threads BEFORE the solo pass: anything the library initialises lazily (a table built on first use, a
+    // registry filled on demand) is then initialised under concurrency, which is where an unsynchronised initialisation shows
+    const bool threads_first = round == 0;
+    auto solo_pass = [&] { for (int t = 0; t < nthreads; ++t) for (auto &j : jobs[t]) { auto x = run_job(j); solo[t].insert(solo[t].end(), x.begin(), x.end()); } };
+    for (int t = 0; t < nthreads; ++t) jobs[t] = make_jobs(r, 6);
+    if (!threads_first) solo_pass();
     std::vector<std::thread> th;
     std::atomic<int> go{0};
     for (int t = 0; t < nthreads; ++t)
@@ -154,6 +159,7 @@ static int run_stress(int nthreads, int rounds, uint64_t seed) {
       });
     go = 1;
     for (auto &x : th) x.join();
+    if (threads_first) solo_pass();
     for (int t = 0; t < nthreads; ++t) out.begin("Thread").s("mode", "stress").arr("sched", std::vector<int>{nthreads}).i("thread", t).arr("solo", solo[t]).arr("got", got[t]).end();
     ++n;
   }
